@@ -67,7 +67,7 @@ func (m *Params) ValidateBasic() error {
 	if m.SignedWindow <= 1 {
 		return fmt.Errorf("invalid signed window too short")
 	}
-	if m.SlashFraction.IsNegative() {
+	if m.SlashFraction.IsNil() || m.SlashFraction.IsNegative() {
 		return fmt.Errorf("attempted to slash with a negative slash factor: %v", m.SlashFraction)
 	}
 	if m.SlashFraction.GT(sdkmath.LegacyOneDec()) {
@@ -76,7 +76,7 @@ func (m *Params) ValidateBasic() error {
 	if m.IbcTransferTimeoutHeight <= 1 {
 		return fmt.Errorf("invalid ibc transfer timeout too short")
 	}
-	if m.OracleSetUpdatePowerChangePercent.IsNegative() {
+	if m.OracleSetUpdatePowerChangePercent.IsNil() || m.OracleSetUpdatePowerChangePercent.IsNegative() {
 		return fmt.Errorf("attempted to powet change percent with a negative: %v", m.OracleSetUpdatePowerChangePercent)
 	}
 	if m.OracleSetUpdatePowerChangePercent.GT(sdkmath.LegacyOneDec()) {
